@@ -5,23 +5,30 @@
    with the single global effect log the harness recorded (apply handlers, the
    connection's Publish, listeners).  Every log entry carries the index of the
    callback and of the script action that was executing (the closing reply of a
-   request has action index = length of the script) and whether it ran on the
-   goroutine of the callback.
+   request has action index = length of the script), the nesting tag d (0 = the
+   script's own call; lid = inside the event a re-entrant listener lid emitted
+   from within its call), and whether it ran on the goroutine of the callback.
+   Every listener also KEEPS the *Event pointer it was given; [g_reread] is what
+   those pointers show at the end of the group (one record per listener entry of
+   the log, in log order) and [g_cb_same] whether they still showed the delivered
+   contents at the end of their callback.
    [mismatches]: the model's log differs from the recorded one.
    [violations]: the property's decidable form on the recorded log only. *)
 From GoRes Require Export Event.Spec.
 Open Scope N_scope.
 
-Definition entry := (N * N * bool * effect)%type.
+Definition entry := (N * N * N * bool * effect)%type.
 
 Record gcase := GC {
   gc_cbs : list callback;
   g_log : list entry;
   (* per callback: the panic value a With callback recovered: (code of a *res.Error or [], text) *)
-  g_panics : list (option (bytes * bytes)) }.
+  g_panics : list (option (bytes * bytes));
+  g_reread : list evrec;
+  g_cb_same : list bool }.
 
 (* ---- the model's log with the same tags ---- *)
-Fixpoint tag_script (cx : ctx) (ty : rtype) (rid : bytes) (ls : list N) (replied : bool) (i : N)
+Fixpoint tag_script (cx : ctx) (ty : rtype) (rid : bytes) (ls : list lst) (replied : bool) (i : N)
     (s : list action) : list (N * effect) * bool * option panic :=
   match s with
   | [] => ([], replied, None)
@@ -44,7 +51,7 @@ Fixpoint tag_group (ci : N) (cbs : list callback) : list (N * N * effect) :=
 
 Definition ctor (e : effect) : N := rank e.
 Definition same_shape (m : N * N * effect) (x : entry) : bool :=
-  let '(c, a, e) := m in let '(c', a', _, e') := x in (c =? c') && (a =? a') && (ctor e =? ctor e').
+  let '(c, a, e) := m in let '(c', a', _, _, e') := x in (c =? c') && (a =? a') && (ctor e =? ctor e').
 Fixpoint shapes_eq (ml : list (N * N * effect)) (il : list entry) : bool :=
   match ml, il with
   | [], [] => true
@@ -53,7 +60,7 @@ Fixpoint shapes_eq (ml : list (N * N * effect)) (il : list entry) : bool :=
   end.
 Fixpoint diff_ctor (k : N) (ml : list (N * N * effect)) (il : list entry) : bool :=
   match ml, il with
-  | (_, _, e) :: ml', (_, _, _, e') :: il' =>
+  | (_, _, e) :: ml', (_, _, _, _, e') :: il' =>
     ((ctor e =? k) && negb (effect_eqb e e')) || diff_ctor k ml' il'
   | _, _ => false
   end.
@@ -86,24 +93,81 @@ Definition check_case (c : gcase) : list N :=
   (if panics_differ (gc_cbs c) (g_panics c) then [5] else []).
 
 (* ---- the property on the recorded log ---- *)
-Definition sel (ci ai : N) (log : list entry) : list effect :=
-  map snd (filter (fun x : entry => let '(c, a, _, _) := x in (c =? ci) && (a =? ai)) log).
+(* entries of one script action, with their nesting tag *)
+Definition sel_full (ci ai : N) (log : list entry) : list (N * effect) :=
+  map (fun x : entry => let '(_, _, d, _, e) := x in (d, e))
+      (filter (fun x : entry => let '(c, a, _, _, _) := x in (c =? ci) && (a =? ai)) log).
+Definition at_depth (d : N) (full : list (N * effect)) : list effect :=
+  map snd (filter (fun x => fst x =? d) full).
+Definition sel (ci ai : N) (log : list entry) : list effect := map snd (sel_full ci ai log).
+
+Definition must_panic (ty : rtype) (a : action) (l : list effect) : bool :=
+  isSomeP (invalid_call ty a) || ret_failed (log_ret l).
+Definition listened (lid : N) (l : list effect) : bool :=
+  existsb (fun e => match e with EListen i _ => i =? lid | _ => false end) l.
+
+(* walk the registered listeners: which ones the outer event has to call (all, up to and
+   including the first whose reaction has to panic), the violation codes of the inner events,
+   and whether a reaction has to panic.  12 = effects of a reaction although its listener was
+   not called *)
+Fixpoint walk (ty : rtype) (rid : bytes) (ids : list N) (outer : list effect) (full : list (N * effect))
+    (ls : list lst) : list N * list N * bool :=
+  match ls with
+  | [] => ([], [], false)
+  | l :: r =>
+    match l_react l with
+    | None => let '(ids', cs, st) := walk ty rid ids outer full r in (l_id l :: ids', cs, st)
+    | Some a' =>
+      let il := at_depth (l_id l) full in
+      if listened (l_id l) outer then
+        let cs0 := if is_event a' then viol_event ty rid ids a' il else [] in
+        if must_panic ty a' il then
+          ([l_id l], cs0 ++ (if forallb (fun l' => is_nil (at_depth (l_id l') full)) r then [] else [10]), true)
+        else let '(ids', cs, st) := walk ty rid ids outer full r in (l_id l :: ids', cs0 ++ cs, st)
+      else
+        let '(ids', cs, st) := walk ty rid ids outer full r in
+        (l_id l :: ids', (if is_nil il then [] else [12]) ++ cs, st)
+    end
+  end.
+(* a nested entry lies inside the call of the listener that emitted it: the nearest preceding
+   entry of the script's own event is that listener's entry *)
+Fixpoint nested_ok (cur : N) (full : list (N * effect)) : bool :=
+  match full with
+  | [] => true
+  | (d, e) :: r =>
+    if d =? 0 then nested_ok (match e with EListen i _ => i | _ => 0 end) r
+    else (d =? cur) && nested_ok cur r
+  end.
+Definition reactor_ids (ls : list lst) : list N :=
+  map l_id (filter (fun l => match l_react l with Some _ => true | None => false end) ls).
+
+(* one event action of a script: codes and whether the handler has to be unwound *)
+Definition viol_nested (ty : rtype) (rid : bytes) (ls : list lst) (a : action) (full : list (N * effect))
+    : list N * bool :=
+  let outer := at_depth 0 full in
+  let '(ids, cs, st) := walk ty rid (map l_id ls) outer full ls in
+  (viol_event ty rid ids a outer ++ cs ++
+   (if nested_ok 0 full && forallb (fun x => (fst x =? 0) || existsb (N.eqb (fst x)) (reactor_ids ls)) full
+    then [] else [12]),
+   must_panic ty a outer || st).
+
 (* actions after one that has to panic (invalid call, failed apply, negative
-   timeout, second reply) must not run: the handler is unwound *)
+   timeout, second reply, panicking reaction) must not run: the handler is unwound *)
 Fixpoint viol_actions (cb : callback) (ci ai : N) (replied dead : bool) (s : list action)
     (log : list entry) : list N :=
   match s with
   | [] => []
   | a :: s' =>
-    let l := sel ci ai log in
-    if dead then (if is_nil l then [] else [10]) ++ viol_actions cb ci (ai + 1) replied true s' log
+    let full := sel_full ci ai log in
+    if dead then (if is_nil full then [] else [10]) ++ viol_actions cb ci (ai + 1) replied true s' log
     else
       let x := exec_action (cb_ctx cb) (cb_ty cb) (cb_rid cb) (cb_ls cb) replied a in
-      let stop := if is_event a then isSomeP (invalid_call (cb_ty cb) a) || ret_failed (log_ret l)
-                  else isSomeP (snd (fst x)) in
-      (if is_event a then viol_event (cb_ty cb) (cb_rid cb) (cb_ls cb) a l
-       else if forallb is_pub l then [] else [3]) ++
-      viol_actions cb ci (ai + 1) (snd x) stop s' log
+      if is_event a then
+        let '(cs, stop) := viol_nested (cb_ty cb) (cb_rid cb) (cb_ls cb) a full in
+        cs ++ viol_actions cb ci (ai + 1) (snd x) stop s' log
+      else
+        (if forallb is_pub (map snd full) then [] else [3]) ++
+        viol_actions cb ci (ai + 1) (snd x) (isSomeP (snd (fst x))) s' log
   end.
 Fixpoint viol_cbs (ci : N) (cbs : list callback) (log : list entry) : list N :=
   match cbs with
@@ -118,13 +182,20 @@ Fixpoint viol_cbs (ci : N) (cbs : list callback) (log : list entry) : list N :=
 Fixpoint tags_sorted (pc pa : N) (log : list entry) : bool :=
   match log with
   | [] => true
-  | (c, a, _, _) :: r => ((pc <? c) || ((pc =? c) && (pa <=? a))) && tags_sorted c a r
+  | (c, a, _, _, _) :: r => ((pc <? c) || ((pc =? c) && (pa <=? a))) && tags_sorted c a r
   end.
 Definition in_range (cbs : list callback) (x : entry) : bool :=
-  let '(c, a, _, _) := x in
+  let '(c, a, _, _, _) := x in
   match nth_error cbs (N.to_nat c) with
   | Some cb => a <=? N.of_nat (length (cb_script cb))
   | None => false
+  end.
+(* what each listener was handed, in log order *)
+Fixpoint delivered (log : list entry) : list evrec :=
+  match log with
+  | [] => []
+  | (_, _, _, _, EListen _ ev) :: r => ev :: delivered r
+  | _ :: r => delivered r
   end.
 Fixpoint dedup (l : list N) : list N :=
   match l with
@@ -132,14 +203,20 @@ Fixpoint dedup (l : list N) : list N :=
   | x :: r => if existsb (N.eqb x) r then dedup r else x :: dedup r
   end.
 
-(* violation codes: 1-4,7-9 see Event/Spec.v viol_event;
+(* violation codes: 1-4,7-9 see Event/Spec.v viol_event (also applied to the event a re-entrant
+   listener emits);
    5 an effect ran on another goroutine than the callback's
    6 effects out of program order (an entry of an earlier action / callback after a later one)
-   10 the handler went on after a call that has to panic (invalid call / failed apply) *)
+   10 the handler went on after a call that has to panic (invalid call / failed apply / panicking reaction)
+   11 an event record handed to a listener was changed after delivery (the retained *Event no
+      longer shows what the listener saw, at the end of the callback or of the group)
+   12 the effects of a re-entrant listener's event are not nested inside that listener's call *)
 Definition viol_case (c : gcase) : list N :=
   dedup (viol_cbs 0 (gc_cbs c) (g_log c) ++
-         (if forallb (fun x : entry => let '(_, _, g, _) := x in g) (g_log c) then [] else [5]) ++
-         (if tags_sorted 0 0 (g_log c) && forallb (in_range (gc_cbs c)) (g_log c) then [] else [6])).
+         (if forallb (fun x : entry => let '(_, _, _, g, _) := x in g) (g_log c) then [] else [5]) ++
+         (if tags_sorted 0 0 (g_log c) && forallb (in_range (gc_cbs c)) (g_log c) then [] else [6]) ++
+         (if list_eqb evrec_eqb (delivered (g_log c)) (g_reread c) && forallb (fun b : bool => b) (g_cb_same c)
+          then [] else [11])).
 
 Fixpoint run_idx {A} (f : A -> list N) (i : N) (cs : list A) : list (N * N) :=
   match cs with
